@@ -18,10 +18,11 @@ LEVEL = 'proof'
 RULE = ('index tables: every tuple pattern of length <= 4 (<= 5 thorough) exhaustively, dims 1..6; polarised minors on random integer '
         'matrices for every sorted INDEX pattern, r <= 3 (4 thorough); structure-class shuffles on random integer inputs dims 1..5 for '
         'all seven classes; level-k vectors (symmetric factor, sub-tuple pieces, Gram matrix) on integer generators k <= 3 (4 thorough) incl. N = 1; '
-        'tripartite matricisations and cut outputs for dimA != dimB != dimC; decision ops on both sides of each threshold. An op is non-trivial when its output is not all zeros/empty; '
+        'tripartite matricisations and cut outputs for dimA != dimB != dimC, tripartite level-k vectors and Gram matrix on Gaussian-integer tensors k <= 3 (4 thorough) incl. N = 1; '
+        'dense (anti)symmetric bases for every rank; rotation / kind=min / INDEX=None option bookkeeping; decision ops on both sides of each threshold. An op is non-trivial when its output is not all zeros/empty; '
         'distinct = distinct op lines.')
 TRUSTED = ['Lean 4.33 kernel', 'axioms: propext, Classical.choice, Quot.sound', 'Lean compiler for the driver executable',
-           'harness/c20.py: ast translator for the three certificate comparisons and the routine behind the decision quantity (validated dynamically '
+           'harness/c20.py: ast translator (symbolic execution + semantic normal form, unrecognised shapes emitted as unknown) for the three certificate comparisons and the routine behind the decision quantity (validated dynamically '
            'on both sides of each threshold, injected only through the routine the source uses), regression corpus corpus/C20, '
            'canonicalisation, in-process wrappers that capture the arrays handed to svd/eigh helpers',
            'modelled, not verified: numqi/matrix_space/{_misc,_hierarchy,_numerical_range}.py',
